@@ -35,7 +35,7 @@ Theorem norm_form npairs siv v : rdf_norm npairs siv v == spec_norm npairs siv v
 Proof. unfold rdf_norm, spec_norm. ring. Qed.
 
 Theorem nbins_quotient_form r0 r1 bw : rdf_nbins_quotient r0 r1 bw == spec_nbins_quotient r0 r1 bw.
-Proof. unfold rdf_nbins_quotient, spec_nbins_quotient. reflexivity. Qed.
+Proof. unfold rdf_nbins_quotient, spec_nbins_quotient, Qdiv. ring. Qed.
 
 (* ------------------------------------------------------------------ bins *)
 Definition in_bin (lo hi : Q) (is_last : bool) (x : Q) : Prop :=
